@@ -209,6 +209,13 @@ func (ut UnitType) findByAlias(alias string) *Unit {
 // sniffUnit simpifies the input alias and returns the unit associated with the
 // specified alias. It returns nil if the unit with such alias is not found.
 func (ut UnitType) sniffUnit(unit string) *Unit {
+	// Canonical names are what Scale hands back to its callers; accept them
+	// verbatim, since e.g. "m*GCU" and "M*GCU" only differ in case.
+	for _, u := range ut.Units {
+		if unit == u.CanonicalName {
+			return &u
+		}
+	}
 	unit = strings.ToLower(unit)
 	if len(unit) > 2 {
 		unit = strings.TrimSuffix(unit, "s")
